@@ -136,6 +136,8 @@ pub open spec fn pw(b: nat, e: nat) -> nat decreases e {
     if e == 0 { 1 } else if e % 2 == 0 { let h = pw(b, e / 2); h * h } else { b * pw(b, (e - 1) as nat) }
 }
 pub open spec fn mk(hi: nat, lo: nat) -> nat { hi * 0x1_0000_0000_0000_0000 + lo }
+// A refuted closed fact leaves `unk()` for the SMT solver, which fails that one assertion without aborting the run.
+pub uninterp spec fn unk() -> bool;
 """
 
 
@@ -170,7 +172,7 @@ def run_rows_unit(label, wd, facts, prelude="", functions=(), chunk=400, threads
     # canary: the machinery must flag a false closed fact (guards against a silently vacuous run)
     cfile = os.path.join(sub, "canary.rs")
     with open(cfile, "w") as f:
-        f.write(ROW_PRELUDE + prelude + "\nproof fn canary() { assert(pw(2, 10) == 1025) by(compute_only); }\n} fn main() {}")
+        f.write(ROW_PRELUDE + prelude + "\nproof fn canary() { assert((pw(2, 10) == 1025) || unk()) by(compute); }\n} fn main() {}")
     cres = verus_run.run(cfile, threads=threads)
     if cres["status"] != "failed":
         r.error = "vacuity guard: canary false fact was not refuted in unit %s (%s)" % (label, cres.get("reason"))
@@ -181,7 +183,7 @@ def run_rows_unit(label, wd, facts, prelude="", functions=(), chunk=400, threads
         for attempt in range(12):
             lines = [ROW_PRELUDE, prelude]
             for fnname, (name, expr, sample) in remaining.items():
-                lines.append("proof fn %s() { assert(%s) by(compute_only); } // %s" % (fnname, expr, name))
+                lines.append("proof fn %s() { assert((%s) || unk()) by(compute); } // %s" % (fnname, expr, name))
             lines.append("} fn main() {}")
             src = "\n".join(lines)
             with open(fn, "w") as f:
